@@ -56,7 +56,9 @@ def sym_state(h, w, symbols):
 
 
 def world(h, symbols, open_mask):
-    w = common.futures_world(h, symbols=symbols, mode='cross')
+    # the margin mode is a finite enumeration: every obligation is proved for cross and for isolated margin
+    mode = 'cross' if h.branch(h.bool('is_cross')) else 'isolated'
+    w = common.futures_world(h, symbols=symbols, mode=mode)
     for s, is_open in zip(symbols, open_mask):
         base = s.split('-')[0]
         w.exchange.f['buy_orders'][base] = common.mk_table(h, f'buy[{base}]')
